@@ -582,3 +582,8 @@ PROPS["C14"]["level_text"] += (" Index agreement (E2, 11 hash-table mutation sit
                                "with exactly one slot republication, a removed entry with exactly one ordered-index removal, and no ordered-index mutation happens without its hash-table counterpart.")
 PROPS["C14"]["functions"] += ["src/core/store/internal.rs::update_record_with_ttl", "src/core/store/atomic.rs::replace_record_if_current", "src/core/store/operations.rs::delete_with_timestamp",
                               "src/core/store/internal.rs::retire_expired_if_current", "src/core/ttl_sweep.rs::sample_and_expire_batch", "src/core/store/ttl.rs::update_ttl"]
+META_SEL = (" E2, DiskIO::read_metadata on every path: blocks 0..=7 are read once, primary = block 0, backup = block 7, both validated by Metadata::from_bytes; the backup is believed exactly when it is "
+            "valid and the primary is invalid or has a SMALLER generation, otherwise the primary.")
+for _p in ("C03", "C10"):
+    PROPS[_p]["level_text"] += META_SEL
+    PROPS[_p]["functions"] += [IO + "::read_metadata"]
